@@ -455,9 +455,9 @@ def classify(w):
 
 
 GENS = {
-    "single-link": Gen(case_single_link, 2400, 120000),
-    "multiuser": Gen(case_multiuser, 800, 40000),
-    "discretise": Gen(case_discretise, 2000, 100000),
+    "single-link": Gen(case_single_link, 2400, 480000),
+    "multiuser": Gen(case_multiuser, 800, 160000),
+    "discretise": Gen(case_discretise, 2000, 400000),
 }
 MIN_EVALS = {"output-is-convolution": 1000, "freq-domain-per-block": 600,
              "output-length": 1500, "multiuser-sum-of-links": 800,
